@@ -14,6 +14,10 @@ CHECKS = {
             "For all pairs of ranges: each pairwise relation arm, extracted from the current source as a comparison formula, is proved equal to its interval definition on every weak ordering of the four end points (and every limit / whitespace-predicate value), the converse / symmetry / implication laws hold between the extracted formulas, negation is the exact complement in all four test functions, toggle_negate/toggle_all/with_limit change exactly one field on the whole operator space, every operator/modifier combination reaches a real arm (no unreachable!()), no unsigned subtraction can underflow, and tests on singleton sets equal the pairwise test (loops unrolled once). Sets with more than one member are decided only for pattern coverage.",
             "trusted: syn, the formula evaluator's closed vocabulary (anything outside it is reported, not skipped), the SPEC table of interval definitions written from the doc comments; the whitespace predicate is uninterpreted; overlap of zero-width selections is checked for symmetry only",
             "DESIGN.md section 4 C13, A7", "syn"),
+    "C09": ("other", "panic-source reachability over the MIR call graph with dominance-based discharge idioms and a reviewed table; table agreement of printed vs parsed keywords (syn)",
+            "Totality: every panic source (assert, unwrap/expect, slicing/indexing, panicking macro, panicking container method) in every function reachable from the four parser entry points (over-approximated call graph: class-hierarchy edges, trait-bound callbacks, closures) is proved dead by a semantic idiom (prefix fact on the same unmodified string established locally or by every caller; dominating comparison; is_some guard) or carries a reviewed one-symbol table line; anything else - in particular any new panic source - is a violation. Fixpoint: every keyword the printers emit (constraints, relation operators, query types, data operators, qualifiers) is accepted by the parser. Meaning preservation of print/parse is not decided.",
+            "trusts rustc MIR and trait resolution, the over-approximated call graph, and rules/panic_safe.json (23 reviewed lines); panics inside foreign crates are not modelled",
+            "DESIGN.md section 4 C09, A1, A2", "mir+syn"),
 }
 
 NA = {
